@@ -1,7 +1,8 @@
 SPECIFICATION Spec
 CONSTANTS
   Cap = 4
-  Sizes <- MCSizes
+  WSizes <- MCWSizes
+  RSizes <- MCRSizes
   MaxOps = @@OPS@@
   Atomic = FALSE
 INVARIANT Inv
